@@ -28,6 +28,31 @@ let rd_csession v = rd_opt (function
         c_groups = rd_list rd_str gs; c_pref = rd_str pu; c_created = rd_opt rd_str cr; c_expires = rd_opt rd_str ex }
     | v -> raise (Bad ("bad claim session " ^ to_string v))) v
 
+let rec rd_json = function
+  | L [Y "null"] -> Oidc.JNull
+  | L [Y "bool"; b] -> Oidc.JBool (rd_bool b)
+  | L [Y "num"; n] -> Oidc.JNum (rd_z n)
+  | L [Y "str"; x] -> Oidc.JStr (rd_str x)
+  | L (Y "arr" :: l) -> Oidc.JArr (List.map rd_json l)
+  | L (Y "obj" :: l) -> Oidc.JObj (List.map (function L [k; v] -> (rd_str k, rd_json v) | v -> raise (Bad ("bad member " ^ to_string v))) l)
+  | v -> raise (Bad ("bad json " ^ to_string v))
+let rd_jobj v = (match rd_json v with Oidc.JObj o -> o | _ -> raise (Bad "expected json object"))
+let rd_ocfg = function
+  | L [iss; skipiss; cid; extra; audc; userc; emailc; groupsc; allowu; skipn] ->
+    { Oidc.g_issuer = rd_str iss; g_skip_issuer = rd_bool skipiss; g_client_id = rd_str cid;
+      g_extra_audiences = rd_list rd_str extra; g_audience_claims = rd_list rd_str audc;
+      g_user_claim = rd_str userc; g_email_claim = rd_str emailc; g_groups_claim = rd_str groupsc;
+      g_allow_unverified = rd_bool allowu; g_skip_nonce = rd_bool skipn }
+  | v -> raise (Bad ("bad oidc cfg " ^ to_string v))
+let rd_token = function
+  | L [sig_ok; iss; exp; claims] ->
+    { Oidc.t_sig_ok = rd_bool sig_ok; t_iss = rd_str iss; t_exp = rd_opt rd_z exp; t_claims = rd_jobj claims }
+  | v -> raise (Bad ("bad token " ^ to_string v))
+let rd_identity = function
+  | L [u; e; g; p] -> { Oidc.i_user = rd_str u; i_email = rd_str e; i_groups = rd_list rd_str g; i_pref = rd_str p }
+  | v -> raise (Bad ("bad identity " ^ to_string v))
+let wr_identity (i : Oidc.identity) = L [wr_str i.Oidc.i_user; wr_str i.Oidc.i_email; wr_list wr_str i.Oidc.i_groups; wr_str i.Oidc.i_pref]
+
 let rd_bign v = (match rd_z v with BinNums.Z0 -> BinNums.N0 | BinNums.Zpos p -> BinNums.Npos p | BinNums.Zneg _ -> raise (Bad "negative address"))
 
 let rd_breq = function
@@ -264,6 +289,23 @@ let register (reg : string -> (Sx.t list -> Sx.t) -> unit) : unit =
                           | StoreFaults.OLockObtain -> "lock_obtain" | StoreFaults.OLockRelease -> "lock_release" | StoreFaults.OPing -> "ping") in
         L [Y oc; L (List.map (fun x -> Y (opn x)) o.StoreFaults.o_ops); wr_bool o.StoreFaults.o_session_cookie_set; wr_bool o.StoreFaults.o_cookie_cleared]
       | _ -> raise (Bad "store_flow arity"));
+  (* ---- Oidc ---- *)
+  reg "oidc_paths" (function
+      | [cfg; now; tok; pf; old] ->
+        let c = rd_ocfg cfg and n = rd_z now and t = rd_opt rd_token tok in
+        let p = rd_opt (rd_opt rd_jobj) pf in
+        let r1 = Oidc.redeem c n t p in
+        let r2 = Oidc.refresh_identity c n (rd_identity old) t p in
+        let r3 = (match t with Some tk -> Oidc.session_from_bearer c n tk | None -> None) in
+        L [wr_opt wr_identity r1; wr_opt wr_identity r2; wr_opt wr_identity r3]
+      | _ -> raise (Bad "oidc_paths arity"));
+  (* nonce check: the claim is (absent) or a json value *)
+  reg "nonce_ok" (function
+      | [skip; raw; hashed; claim] ->
+        let h = rd_str hashed in
+        let claims = (match claim with L [Y "absent"] -> [] | j -> [(str_of_string "nonce", rd_json j)]) in
+        wr_bool (Oidc.lib_parse_ok claims && (rd_bool skip || Oidc.check_nonce (fun _ -> h) (rd_str raw) claims))
+      | _ -> raise (Bad "nonce_ok arity"));
   reg "split_host_port" (function
       | [x] -> wr_opt (wr_pair wr_str wr_str) (NetAddr.split_host_port (rd_str x))
       | _ -> raise (Bad "split_host_port arity"));
